@@ -617,6 +617,47 @@ def r13_2_replace(ctx, prog, rule="R13.2"):
             ok = isinstance(r, tuple) and r[0].endswith("eq") and "attribute_type" in repr(r[1]) and "attribute_type" in repr(r[2])
             ctx.ob(rule, "add-position-predicate", ok, "position predicate = %s" % show(r)[:160], b.where())
     ctx.floor(rule, "add closures", len(cl), 1)
+    # remove::<T>: a dedicated slot is taken, or the first attribute of the type is removed *preserving the order of
+    # the others* (Vec::remove at the found position; swap_remove / retain-by-other-key would reorder or over-delete)
+    paths, info = C.explore_fn(prog, SA + "::remove", "sa", [r"\{closure", r"stun_rs::attributes::StunAttribute::(is_\w+)$"])
+    ctx.fn(info["body"])
+    seen = {}
+    MUT = r"Vec::<.*>::(remove|swap_remove|retain|retain_mut|drain|truncate|clear|pop|insert|push|dedup\w*|sort\w*|reverse|swap|split_off|append|extend\w*)$|IndexMut"
+    for pa in paths:
+        pos = pa.choice(r"^variant\(ret:position@")
+        mut = [e for e in pa.calls if re.search(MUT, e[1]) and e[3] and e[3][:2] == ("sa", "attributes")]
+        w = sorted({x[2] for x in pa.writes if x[0] == "write" and x[1] == "sa"})
+        r = _ret(pa)
+        if pos == "Some":
+            key = "remove:found"
+            ok = len(mut) == 1 and re.search(r"Vec::<.*>::remove$", mut[0][1]) is not None and not w
+            if ok:
+                a = C.expr_of(pa, mut[0][2])
+                ok = "position" in repr(a[1]) and isinstance(r, tuple) and r[0] == "Option::Some" and isinstance(r[1], tuple) and r[1][0] == "Vec::remove"
+            why = "found: %s on sa.attributes, returns %s" % ([C.short(e[1]) for e in mut], show(r)[:80])
+        elif pos == "None":
+            key = "remove:absent"
+            ok = not mut and not w and r == "Option::None"
+            why = "absent: %d mutation(s), returns %s" % (len(mut) + len(w), show(r)[:40])
+        else:
+            key = "remove:slot:%s" % (w[0][0] if len(w) == 1 and w[0] else "?")
+            ok = not mut and len(w) == 1 and w[0][0] in ("integrity", "integrity_sha256", "fingerprint") \
+                and isinstance(r, tuple) and r[0] == "Option::Some" and ("sa.%s." % w[0][0]) in repr(r[1])
+            why = "slot: writes %s, %d vector mutation(s), returns %s" % (w, len(mut), show(r)[:60])
+        if key not in seen or not ok:
+            seen[key] = (ok, why, pa)
+    for key, (ok, why, pa) in sorted(seen.items()):
+        ctx.ob(rule, key, ok, why, info["where"], replay=None if ok else pa.describe())
+    ctx.floor(rule, "remove cases", len(seen), 5)
+    cl = [b for b in prog.bodies.values() if b.path.startswith(SA + "::remove::{closure")]
+    for b in cl:
+        paths, info = C.explore_fn(prog, b.path, "c", [])
+        for pa in paths:
+            r = _ret(pa)
+            ok = isinstance(r, tuple) and r[0].endswith("eq") and {repr(r[1])[:34], repr(r[2])[:34]} == \
+                {repr(("StunAttribute::attribute_type", "top:a"))[:34], repr(("T::get_type",))[:34]}
+            ctx.ob(rule, "remove-position-predicate", ok, "position predicate = %s" % show(r)[:160], b.where())
+    ctx.floor(rule, "remove closures", len(cl), 1)
 
 
 def r13_45_build(ctx, prog, rule="R13.5"):
